@@ -162,28 +162,45 @@ def triggered (st : KS) (o : Own) : Bool :=
     | none => true
     | some r => resolves st r && (st.oks[r.pos]?).getD false
 
-/-- values pushed through the owning macro's value links into this child (position `p`) -/
-def pushed (pins : List Val) (links : List (Option Ref)) (p : Nat) (o : Own) : List Val → Nat → List Val
+/-- values forwarded through the owning macro's value links into this child (position `p`).  A value link
+forwards when the macro's input is *assigned*; `mask k` says that input `k` of the macro was assigned on the
+way into this run (fetched from a connection, or itself forwarded from further up) -/
+def pushed (pins : List Val) (links : List (Option Ref)) (mask : List Bool) (p : Nat) (o : Own) :
+    List Val → Nat → List Val
   | ins, k =>
-    match links[k]?, pins[k]? with
-    | some (some r), some v =>
+    match links[k]?, pins[k]?, mask[k]? with
+    | some (some r), some v, some true =>
       if r.pos == p && r.gen == o.gen then setNth ins r.slot v else ins
-    | _, _ => ins
+    | _, _, _ => ins
 
-def pushAll (pins : List Val) (links : List (Option Ref)) (p : Nat) (o : Own) : Nat → List Val → List Val
+def pushAll (pins : List Val) (links : List (Option Ref)) (mask : List Bool) (p : Nat) (o : Own) :
+    Nat → List Val → List Val
   | 0, ins => ins
-  | k + 1, ins => pushed pins links p o (pushAll pins links p o k ins) k
+  | k + 1, ins => pushed pins links mask p o (pushAll pins links mask p o k ins) k
+
+/-- which inputs of the child at position `p` were assigned on the way into its run: the connected ones
+(if it got as far as fetching) and the ones a value was forwarded to -/
+def kidMask (links : List (Option Ref)) (mask : List Bool) (p : Nat) (o : Own) (fetched : Bool) : List Bool :=
+  (List.range o.ins.length).map fun s =>
+    (fetched && (match o.inRefs[s]? with | some (some _) => true | _ => false)) ||
+    (List.range links.length).any fun k =>
+      (mask[k]?).getD false &&
+        (match links[k]? with
+         | some (some r) => r.pos == p && r.gen == o.gen && r.slot == s
+         | _ => false)
 
 mutual
 /-- the node with its input values replaced (a fetch that is not followed by a run): every assignment is
 forwarded through the value links at once, all the way down -/
-def setIns (i : List Val) : Node → Node
+def setIns (i : List Val) (mask : List Bool) : Node → Node
   | .fn o fid => .fn { o with ins := i } fid
-  | .comp o k links kids => .comp { o with ins := i } k links (pushKids i links 0 kids)
-/-- the children of a composite after its inputs `pins` were assigned -/
-def pushKids (pins : List Val) (links : List (Option Ref)) (p : Nat) : List Node → List Node
+  | .comp o k links kids => .comp { o with ins := i } k links (pushKids i links mask 0 kids)
+/-- the children of a composite after the inputs `mask` of it were assigned -/
+def pushKids (pins : List Val) (links : List (Option Ref)) (mask : List Bool) (p : Nat) : List Node → List Node
   | [] => []
-  | n :: ns => setIns (pushAll pins links p n.own links.length n.own.ins) n :: pushKids pins links (p + 1) ns
+  | n :: ns =>
+    setIns (pushAll pins links mask p n.own links.length n.own.ins) (kidMask links mask p n.own false) n
+      :: pushKids pins links mask (p + 1) ns
 end
 
 /-- `inputs.fetch()`: a connected slot takes the upstream output if it holds data -/
@@ -200,8 +217,8 @@ inductive Prep
   | refuse (ins : List Val)    -- ReadinessError
   | go (ins : List Val)
 
-def prep (pins : List Val) (links : List (Option Ref)) (st : KS) (o : Own) : Prep :=
-  let base := pushAll pins links st.pre.length o links.length o.ins
+def prep (pins : List Val) (links : List (Option Ref)) (mask : List Bool) (st : KS) (o : Own) : Prep :=
+  let base := pushAll pins links mask st.pre.length o links.length o.ins
   if triggered st o then
     let f := fetchSlots st o.inRefs base
     if f.any isNd || o.failed || o.running then .refuse f else .go f
@@ -259,11 +276,11 @@ end
 /-- the done-callback of a composite that ran as a copy: the exception travels through the future and the
 local children stay as they were, or the returned copy is merged.  With the adopting merge a copy that itself
 merged a by-value child cannot be sent back. -/
-def mergeOrFail (cfg : Cfg) (o : Own) (k : CK) (links : List (Option Ref)) (kids : List Node)
-    (rins : List Val) (rout : Val) (st : KS) : Node :=
+def mergeOrFail (cfg : Cfg) (o : Own) (k : CK) (links : List (Option Ref)) (mask : List Bool)
+    (kids : List Node) (rins : List Val) (rout : Val) (st : KS) : Node :=
   if st.err || (!cfg.keepIO && !huskFreeKids st.pre) then
     -- the local children only saw the inputs that were forwarded to them before the submission
-    .comp { o with failed := true, running := false } k links (pushKids o.ins links 0 kids)
+    .comp { o with failed := true, running := false } k links (pushKids o.ins links mask 0 kids)
   else mergeBack cfg o k links rins (st.out.getD rout) (rewireAll st.bumps st.pre)
 
 /-- bookkeeping after one child of a running composite was handled -/
@@ -277,32 +294,37 @@ def KS.push (st : KS) (old n : Node) (ok : Bool) (err : Bool) : KS :=
 mutual
 /-- `node.run()` with the inputs `ins` already fetched, to its end (an executor job is completed at once:
 values do not depend on the completion order, `C01_value`) -/
-def run (cfg : Cfg) (fails : Nat → Bool) (mode : Mode) (ins : List Val) : Node → Node
+def run (cfg : Cfg) (fails : Nat → Bool) (mode : Mode) (ins : List Val) (mask : List Bool) : Node → Node
   | .fn o fid => .fn (o.leafRun fails fid ins) fid
   | .comp o k links kids =>
     let o1 := { o with ins := ins }
     if (place mode o.exe).byValue then
       -- serialise, run the copy there (its live executors are gone), merge the returned copy
-      mergeOrFail cfg o1 k links kids ins o1.out (runKids cfg fails (.honour true) ins links KS.init kids)
+      mergeOrFail cfg o1 k links mask kids ins o1.out
+        (runKids cfg fails (.honour true) ins links mask KS.init kids)
     else
-      let st := runKids cfg fails mode ins links KS.init kids
+      let st := runKids cfg fails mode ins links mask KS.init kids
       .comp { o1 with out := st.out.getD o1.out, failed := st.err, running := false } k links
         (rewireAll st.bumps st.pre)
 
 def runKids (cfg : Cfg) (fails : Nat → Bool) (mode : Mode) (pins : List Val) (links : List (Option Ref))
-    (st : KS) : List Node → KS
+    (mask : List Bool) (st : KS) : List Node → KS
   | [] => st
   | n :: rest =>
-    match prep pins links st n.own with
-    | .skip i => runKids cfg fails mode pins links (st.push n (setIns i n) false false) rest
-    | .refuse i => runKids cfg fails mode pins links (st.push n (setIns i n) false true) rest
+    match prep pins links mask st n.own with
+    | .skip i =>
+      runKids cfg fails mode pins links mask
+        (st.push n (setIns i (kidMask links mask st.pre.length n.own false) n) false false) rest
+    | .refuse i =>
+      runKids cfg fails mode pins links mask
+        (st.push n (setIns i (kidMask links mask st.pre.length n.own true) n) false true) rest
     | .go i =>
-      let n' := run cfg fails mode i n
-      runKids cfg fails mode pins links (st.push n n' (!n'.own.failed) n'.own.failed) rest
+      let n' := run cfg fails mode i (kidMask links mask st.pre.length n.own true) n
+      runKids cfg fails mode pins links mask (st.push n n' (!n'.own.failed) n'.own.failed) rest
 end
 
 /-- the specification: the same graph run in place, executors ignored -/
-def eval (fails : Nat → Bool) (ins : List Val) (n : Node) : Node := run Cfg.repaired fails .ignore ins n
+def eval (fails : Nat → Bool) (ins : List Val) (n : Node) : Node := run Cfg.repaired fails .ignore ins [] n
 
 /-! ## observations -/
 
@@ -476,13 +498,13 @@ def finish (cfg : Cfg) (fails : Nat → Bool) : Job → Node → Option Node
   | .leaf args, .fn o fid =>
     -- the function saw `args`; the node's inputs are whatever it holds now
     some (.fn { o.leafRun fails fid args with ins := o.ins } fid)
-  | .shared, .comp o k l ks => some (run cfg fails (.honour false) o.ins (.comp o k l ks))
+  | .shared, .comp o k l ks => some (run cfg fails (.honour false) o.ins [] (.comp o k l ks))
   | .copy (some (.comp so _ sl sks)), .comp o k _ ks =>
     -- the copy was serialised at submission
-    some (mergeOrFail cfg o k sl ks so.ins so.out (runKids cfg fails (.honour true) so.ins sl KS.init sks))
+    some (mergeOrFail cfg o k sl [] ks so.ins so.out (runKids cfg fails (.honour true) so.ins sl [] KS.init sks))
   | .copy _, .comp o k l ks =>
     -- … or when the job was picked up: the object as it is now
-    some (mergeOrFail cfg o k l ks o.ins o.out (runKids cfg fails (.honour true) o.ins l KS.init ks))
+    some (mergeOrFail cfg o k l [] ks o.ins o.out (runKids cfg fails (.honour true) o.ins l [] KS.init ks))
   | _, _ => none
 
 def complete (cfg : Cfg) (fails : Nat → Bool) (s : Sess) : Sess × Res :=
